@@ -148,7 +148,7 @@ CHECKS = {
         'writer calls.',
    design='5/C16'),
  'C08': dict(
-   technique='Coq proof (Nasu pass order as an arithmetic characterisation; REPEAT executes its body n times) + token-level differential of the _WG/_NASU/_MK files through the session model + controller monitors + file-system naming check + source translator: NasuWaveguide.adj_scan_order is re-translated from /repo on every run and proved equal to the model\'s pass order (coq/tie/EquivNw.v); the programs written by WaveguideWriter.pgm / MarkerWriter.pgm / NasuWriter.pgm inside the compiler context are translated as well and proved to be the model\'s op lists (coq/tie/EquivWr.v)',
+   technique='Coq proof (Nasu pass order as an arithmetic characterisation; REPEAT executes its body n times) + token-level differential of the _WG/_NASU/_MK files through the session model + controller monitors + file-system naming check + source translator: NasuWaveguide.adj_scan_order is re-translated from /repo on every run and proved equal to the model\'s pass order (coq/tie/EquivNw.v); the programs written by WaveguideWriter.pgm / MarkerWriter.pgm / NasuWriter.pgm inside the compiler context are translated as well and proved to be the model\'s op lists (coq/tie/EquivWr.v) + source translator for the file each writer compiles (empty writer: none; otherwise stem + _WG / _NASU / _MK .pgm: coq/tie/EquivWn.v)',
    text='Props/C08.v: the Nasu pass offsets are exactly {k/2 : |k| <= n-1, k = n-1 mod 2} (n entries, symmetric, one shift apart, '
         'centred), ordered outward, feed and shutter untouched; the writer op lists are one REPEAT(scan) block per group / marker; '
         'the controller runs a REPEAT body n times. Tie to /repo: WaveguideWriter / NasuWriter / MarkerWriter .pgm() are run on '
